@@ -70,7 +70,7 @@ site('scan.c', 'stringlit', 'error', 'newline in string literal', T('decl', 'cha
 site('scan.c', 'stringlit', 'error', 'null byte in string literal', T('expr', 'sizeof("a\x00b")', gcc=W_ENC), T('decl', 'char x_[] = "\x00";', gcc=W_ENC))
 
 # ------------------------------------------------------------------ qbe.c
-for cond in ('t->base->size||t->base->kind==TYPEARRAY', 't->kind==TYPEARRAY'):
+for cond in ('t->kind==TYPEARRAY',):       # (the assertion on the element size was wrong and is gone since /repo a5fcaa4)
     site('qbe.c', 'calcvla', 'assert', cond, J('internal', 'shape of variably modified types built by decl.c:declarator'))
 site('qbe.c', 'calcvla', 'error', "array of unspecified size '[*]' is only allowed in a function prototype",
      T('bdecl', 'int (*p_)[*] = 0;', note='regression: mkarraytype left u.array.size uninitialised (heap-dependent crash)'),
